@@ -153,6 +153,87 @@ class PanSN(Instance):
         return s["sample"] == n.get("sample") and s["contig"] == n.get("contig")
 
 
+class FileNaming(Instance):
+    """Sample name derived from the file name (non-PanSN headers): the plain and the gzip presentation of the same file must give the
+    same sample name, and for a base name that does not itself end in .fa/.fasta the name is the base name."""
+    crates = ("ragc-core", "ragc-common")
+    required_witnesses = ("dotted_base", "plain_base")
+
+    def __init__(self, name, maxlen, alpha):
+        Instance.__init__(self, name)
+        self.maxlen, self.alpha = maxlen, alpha
+        self.bounds = {"base name": f"every string of length 1..{maxlen} over {[chr(c) for c in alpha]} (first character not '.')", "extension": ".fa / .fasta, each plain and with .gz",
+                       "content": "one record with a non-PanSN header", "gzip": "container modelled as the identity: only the naming rule is in scope here"}
+
+    def sample_of(self, e, path):
+        from mirsym import models_io
+        fd = models_io.FileData(); fd.data[:] = [Int(8, 0, b) for b in b">c1\nAC\n"]
+        e.fs.files[bytes(x.v for x in path) if all(x.conc() for x in path) else None] = fd
+        it = e.call_fn(CORE, "MultiFileIterator::new", [VecObj([VecObj(list(path), "String")])])
+        e.prove(it.variant == 0, "present:open_failed", "MultiFileIterator::new failed on an existing file")
+        ic = Cell(it.f[0])
+        r = e.call_fn(CORE, "<MultiFileIterator as ContigIterator>::next_contig", [Ref(ic)])
+        e.prove(r.variant == 0 and r.f[0].variant == 1, "present:no_record", "the record of the file was not returned")
+        return e.vec_items(r.f[0].f[0].f[0])
+
+    def path(self, e):
+        from mirsym import models_io
+        e.fs = models_io.FS()
+        n = 1 + e.choose(self.maxlen, "n1")
+        base = [Int(8, 0, self.alpha[e.choose(len(self.alpha), f"b{i}")]) for i in range(n)]     # concrete per path: the file model is keyed by name
+        if base[0].v == 46:
+            raise Infeasible()
+        e.inputs["base"] = [x.v for x in base]
+        ext = [b".fa", b".fasta"][e.choose(2, "ext")]
+        e.inputs["ext"] = ext.decode()
+        c8 = lambda b: [Int(8, 0, x) for x in b]
+        plain = self.sample_of(e, c8(b"/in/") + base + c8(ext))
+        gz = self.sample_of(e, c8(b"/in/") + base + c8(ext) + c8(b".gz"))
+        bs = bytes(x.v for x in base)
+        e.witness("dotted_base" if b"." in bs else "plain_base")
+        if e.concrete is not None:
+            return {"plain": [x.v for x in plain], "gz": [x.v for x in gz]}
+        e.prove(len(plain) == len(gz) and e.eq_bytes(plain, gz), "present:sample_name", f"file {bs.decode()}{ext.decode()} gives sample {bytes(x.v for x in plain)!r}, its .gz presentation gives {bytes(x.v for x in gz)!r}")
+        if not (bs.endswith(b".fa") or bs.endswith(b".fasta")):
+            e.prove(bytes(x.v for x in plain) == bs, "present:sample_name", f"file {bs.decode()}{ext.decode()} gives sample {bytes(x.v for x in plain)!r}, expected the file name without its FASTA extension")
+        return None
+
+    def classify_panic(self, e, ex):
+        return f"present:panic:{ex.where.split('::')[-1]}:{ex.kind}", str(ex)
+
+    def native(self, inp):
+        base = inp.get("base") or [self.alpha[inp.get(f"b{i}", 0)] for i in range(1 + inp.get("n1", 0))]
+        ext = inp.get("ext", ".fa")
+        return "file_naming", {"base": base, "ext": ext if isinstance(ext, str) else [".fa", ".fasta"][ext]}
+
+    def confirm(self, viol, outs):
+        for o in outs.values():
+            if "panic" in o or "crash" in o:
+                return True
+            bs = bytes(viol["inputs"].get("base", []))
+            if o.get("plain") != o.get("gz"):
+                return True
+            if not (bs.endswith(b".fa") or bs.endswith(b".fasta")) and o.get("plain") != list(bs):
+                return True
+        return False
+
+    def concrete_cases(self, rnd):
+        out = []
+        for _ in range(6):
+            n = 1 + rnd.randrange(self.maxlen)
+            idx = [rnd.randrange(len(self.alpha)) for _ in range(n)]
+            if self.alpha[idx[0]] == 46:
+                idx[0] = 0
+            c = {"n1": n - 1, "ext": rnd.randrange(2)}
+            for i, k in enumerate(idx):
+                c[f"b{i}"] = k
+            out.append(c)
+        return out
+
+    def compare(self, s, n):
+        return s["plain"] == n.get("plain") and s["gz"] == n.get("gz")
+
+
 INSTANCES = {}
 
 
@@ -161,8 +242,8 @@ def _reg(i):
     return i
 
 
-QUICK = [_reg(Present("present_q", 2, 2, 3, [0, 1, 2])).name, _reg(PanSN("pansn_q", 6)).name]
-THOROUGH = [_reg(Present("T_present", 2, 3, 5, [0, 1, 2, 3])).name, _reg(PanSN("T_pansn", 8)).name]
+QUICK = [_reg(Present("present_q", 2, 2, 3, [0, 1, 2])).name, _reg(PanSN("pansn_q", 6)).name, _reg(FileNaming("naming_q", 5, [ord(c) for c in "a.f"])).name]
+THOROUGH = [_reg(Present("T_present", 2, 3, 5, [0, 1, 2, 3])).name, _reg(PanSN("T_pansn", 8)).name, _reg(FileNaming("T_naming", 7, [ord(c) for c in "a.fs2"])).name]
 
 
 def run(ctx):
